@@ -24,7 +24,8 @@ enum Op {
 fn value(key: &str, n: u32) -> TensorData {
     let mut d = TensorData::new();
     d.set("tag", TensorValue::Scalar(ScalarValue::Int(i64::from(n))));
-    if key.starts_with("emb:") {
+    // (values numbered 100 and up carry no vector: an embedding key overwritten by a plain entry)
+    if key.starts_with("emb:") && n < 100 {
         d.set("_embedding", TensorValue::Vector((0..384).map(|i| n as f32 + i as f32 * 0.001).collect()));
     }
     d
@@ -323,6 +324,11 @@ fn programs(thorough: bool) -> Vec<Program> {
             add("put-put-get", vec![], vec![vec![put(k1, 1), get(k1)], vec![put(k1, 2), get(k1)]]);
             add("put-delete", vec![k1], vec![vec![put(k1, 1), get(k1)], vec![del(k1), ex(k1)]]);
             add("delete-delete", vec![k1], vec![vec![del(k1)], vec![del(k1)]]);
+            add("put-vs-delete-of-absent-key", vec![], vec![vec![put(k1, 1)], vec![del(k1), ex(k1)]]);
+            if cls == "emb" {
+                add("overwrite-by-vectorless-value", vec![k1], vec![vec![put(k1, 100), get(k1)], vec![get(k1)]]);
+                add("vectorless-then-vector", vec![], vec![vec![put(k1, 100), put(k1, 1)], vec![get(k1), get(k1)]]);
+            }
             add("two-keys-scan", vec![], vec![vec![put(k1, 1), put(k2, 2)], vec![scan(pre), get(k2)]]);
             if !durable || thorough {
                 add("3-threads", vec![], vec![vec![put(k1, 1)], vec![put(k1, 2)], vec![get(k1)]]);
